@@ -451,4 +451,93 @@ B ed25519_order() {
                                    0, 0, 0, 0, 0, 0, 0, 0, 0, 0, 0, 0, 0, 0, 0, 0x10 };
     return B(L, L + 32);
 }
+
+// ---------------------------------------------------------------- Edwards25519 arithmetic (own code on BN)
+namespace {
+struct EdCtx { BIGNUM *p, *d, *d2, *L, *sqm1; };
+static EdCtx &ed() {
+    static EdCtx e; static bool init = false;
+    if (!init) {
+        e.p = BN_new(); BN_set_word(e.p, 1); BN_lshift(e.p, e.p, 255); BN_sub_word(e.p, 19);
+        BIGNUM *a = BN_new(), *b = BN_new(); BN_set_word(a, 121665); BN_set_word(b, 121666);
+        BN_mod_inverse(b, b, e.p, ctx()); e.d = BN_new(); BN_mod_mul(e.d, a, b, e.p, ctx()); BN_sub(e.d, e.p, e.d);    // d = -121665/121666
+        e.d2 = BN_new(); BN_mod_lshift1(e.d2, e.d, e.p, ctx());
+        e.L = NULL; BN_dec2bn(&e.L, "7237005577332262213973186563042994240857116359379907606001950938285454250989");
+        BN_free(a); BN_free(b); init = true;
+    }
+    return e;
+}
+static B rev(const B &a) { return B(a.rbegin(), a.rend()); }
+struct EdPt { BIGNUM *X, *Y, *Z, *T; EdPt() : X(BN_new()), Y(BN_new()), Z(BN_new()), T(BN_new()) {} ~EdPt() { BN_free(X); BN_free(Y); BN_free(Z); BN_free(T); }
+              EdPt(const EdPt &o) : X(BN_dup(o.X)), Y(BN_dup(o.Y)), Z(BN_dup(o.Z)), T(BN_dup(o.T)) {}
+              EdPt &operator=(const EdPt &o) { BN_copy(X, o.X); BN_copy(Y, o.Y); BN_copy(Z, o.Z); BN_copy(T, o.T); return *this; } };
+static void ed_identity(EdPt &P) { BN_zero(P.X); BN_one(P.Y); BN_one(P.Z); BN_zero(P.T); }
+// lenient decode; canonical = false when y >= p or (x == 0 and the sign bit is set)
+static bool ed_decode(const B &enc, EdPt &P, bool &canonical) {
+    if (enc.size() != 32) return false;
+    EdCtx &e = ed(); B le = enc; int sign = le[31] >> 7; le[31] &= 0x7F;
+    BIGNUM *y = tobn(rev(le)), *u = BN_new(), *v = BN_new(), *x = NULL; bool ok = false;
+    canonical = BN_cmp(y, e.p) < 0; BN_nnmod(y, y, e.p, ctx());
+    BN_mod_sqr(u, y, e.p, ctx()); BN_mod_mul(v, u, e.d, e.p, ctx()); BN_add_word(v, 1); BN_nnmod(v, v, e.p, ctx());
+    BN_sub_word(u, 1); BN_nnmod(u, u, e.p, ctx());
+    BIGNUM *vi = BN_mod_inverse(NULL, v, e.p, ctx());
+    if (vi) {
+        BN_mod_mul(u, u, vi, e.p, ctx());                    // x^2
+        if (BN_is_zero(u)) x = BN_new(), BN_zero(x);
+        else { x = BN_mod_sqrt(NULL, u, e.p, ctx()); if (x) { BIGNUM *c = BN_new(); BN_mod_sqr(c, x, e.p, ctx()); if (BN_cmp(c, u) != 0) { BN_free(x); x = NULL; } BN_free(c); } }
+        ERR_clear_error();
+        if (x) {
+            if (BN_is_zero(x)) { if (sign) canonical = false; }
+            else if (BN_is_odd(x) != sign) BN_sub(x, e.p, x);
+            BN_copy(P.X, x); BN_copy(P.Y, y); BN_one(P.Z); BN_mod_mul(P.T, x, y, e.p, ctx()); ok = true; BN_free(x);
+        }
+        BN_free(vi);
+    }
+    BN_free(y); BN_free(u); BN_free(v); return ok;
+}
+static B ed_encode(const EdPt &P) {
+    EdCtx &e = ed(); BIGNUM *zi = BN_mod_inverse(NULL, P.Z, e.p, ctx()), *x = BN_new(), *y = BN_new(); if (!zi) die("ed encode");
+    BN_mod_mul(x, P.X, zi, e.p, ctx()); BN_mod_mul(y, P.Y, zi, e.p, ctx());
+    B out = rev(frombn_pad(y, 32)); if (BN_is_odd(x)) out[31] |= 0x80;
+    BN_free(zi); BN_free(x); BN_free(y); return out;
+}
+// add-2008-hwcd-3 (a = -1), unified and complete: also used for doubling
+static void ed_add(EdPt &R, const EdPt &P, const EdPt &Q) {
+    EdCtx &e = ed(); BN_CTX *c = ctx();
+    BIGNUM *A = BN_new(), *Bb = BN_new(), *C = BN_new(), *D = BN_new(), *E = BN_new(), *F = BN_new(), *G = BN_new(), *H = BN_new(), *t = BN_new();
+    BN_mod_sub(A, P.Y, P.X, e.p, c); BN_mod_sub(t, Q.Y, Q.X, e.p, c); BN_mod_mul(A, A, t, e.p, c);
+    BN_mod_add(Bb, P.Y, P.X, e.p, c); BN_mod_add(t, Q.Y, Q.X, e.p, c); BN_mod_mul(Bb, Bb, t, e.p, c);
+    BN_mod_mul(C, P.T, Q.T, e.p, c); BN_mod_mul(C, C, e.d2, e.p, c);
+    BN_mod_mul(D, P.Z, Q.Z, e.p, c); BN_mod_lshift1(D, D, e.p, c);
+    BN_mod_sub(E, Bb, A, e.p, c); BN_mod_sub(F, D, C, e.p, c); BN_mod_add(G, D, C, e.p, c); BN_mod_add(H, Bb, A, e.p, c);
+    BN_mod_mul(R.X, E, F, e.p, c); BN_mod_mul(R.Y, G, H, e.p, c); BN_mod_mul(R.T, E, H, e.p, c); BN_mod_mul(R.Z, F, G, e.p, c);
+    BN_free(A); BN_free(Bb); BN_free(C); BN_free(D); BN_free(E); BN_free(F); BN_free(G); BN_free(H); BN_free(t);
+}
+static bool ed_is_identity(const EdPt &P) { return BN_is_zero(P.X) && BN_cmp(P.Y, P.Z) == 0; }
+static void ed_mul(EdPt &R, const B &scalar_le, const EdPt &P) {
+    EdPt acc; ed_identity(acc);
+    for (size_t i = scalar_le.size() * 8; i-- > 0;) {
+        EdPt t(acc); ed_add(acc, t, t);
+        if ((scalar_le[i / 8] >> (i % 8)) & 1) { EdPt u(acc); ed_add(acc, u, P); }
+    }
+    R = acc;
+}
+}  // namespace
+B ed25519_base() { B b(32, 0x66); b[0] = 0x58; return b; }
+B ed25519_add(const B &p, const B &q) { EdPt P, Q, R; bool c; if (!ed_decode(p, P, c) || !ed_decode(q, Q, c)) return B(); ed_add(R, P, Q); return ed_encode(R); }
+B ed25519_mul(const B &scalar_le, const B &p) { EdPt P, R; bool c; if (!ed_decode(p, P, c)) return B(); ed_mul(R, scalar_le, P); return ed_encode(R); }
+int ed25519_small_order(const B &enc) {
+    EdPt P; bool c; if (!ed_decode(enc, P, c)) return 0;
+    int order = 1;
+    for (int i = 0; i < 4; i++, order *= 2) { if (ed_is_identity(P)) return order; EdPt t(P); ed_add(P, t, t); }
+    return 0;
+}
+bool ed25519_point_canonical(const B &enc) { EdPt P; bool c = false; return ed_decode(enc, P, c) && c; }
+B ed25519_secret_scalar(const B &seed) { B h = hash(H_SHA512, seed.data(), seed.size()); h.resize(32); h[0] &= 248; h[31] &= 127; h[31] |= 64; return h; }
+B sc25519_reduce(const B &le) { BIGNUM *x = tobn(rev(le)); BN_nnmod(x, x, ed().L, ctx()); B out = rev(frombn_pad(x, 32)); BN_free(x); return out; }
+B sc25519_muladd(const B &a, const B &b, const B &c) {
+    BIGNUM *x = tobn(rev(a)), *y = tobn(rev(b)), *z = tobn(rev(c));
+    BN_mod_mul(x, x, y, ed().L, ctx()); BN_mod_add(x, x, z, ed().L, ctx());
+    B out = rev(frombn_pad(x, 32)); BN_free(x); BN_free(y); BN_free(z); return out;
+}
 }  // namespace ox
